@@ -3,6 +3,7 @@
 
 pub mod common;
 pub mod matching;
+pub mod relational;
 
 use crate::Leaf;
 use crate::ledger::Skeleton;
@@ -10,6 +11,11 @@ use crate::ledger::Skeleton;
 pub fn run(prop: &str, sk: &Skeleton) -> Leaf {
     match prop {
         "C01" | "C02" | "C03" | "C05" => matching::run(prop, sk),
+        "C06" => relational::c06(sk),
+        "C09" => relational::c09(sk),
+        "C10" => relational::c10(sk),
+        "C11" => relational::c11(sk),
+        "C12" => relational::c12(sk),
         o => panic!("no evaluator for property {o}"),
     }
 }
